@@ -787,12 +787,17 @@ class Plugin:
             result = strax.dict_to_rec(result, dtype=self.dtype_for(_dtype))
             self._check_dtype(result, _dtype)
             result = self.chunk(start=start, end=end, data_type=_dtype, data=result)
+        self._check_chunk(result, _dtype)
+        return self.superrun_transformation(result, superrun, subruns)
+
+    def _check_chunk(self, result, _dtype):
+        """Check that a Chunk delivered by the plugin is what it declares for _dtype."""
         if result.data_type != _dtype:
             raise ValueError(
                 f"{self.__class__.__name__} returned a Chunk with data_type "
                 f"{result.data_type} instead of {_dtype}."
             )
-        return self.superrun_transformation(result, superrun, subruns)
+        self._check_dtype(result.data, _dtype)
 
     def chunk(self, *, start, end, data, data_type=None, run_id=None):
         if data_type is None:
